@@ -3,6 +3,7 @@ package props
 // C09 — the execution head advances only by valid child blocks; engine faults commit nothing.
 
 import (
+	bitcointypes "github.com/goatnetwork/goat/x/bitcoin/types"
 	"bytes"
 	"fmt"
 	"math/big"
@@ -25,6 +26,9 @@ type FaultSpec struct {
 	// InProcess (EndBlock faults that abort the block): the block is executed again by the same process (the
 	// uncommitted writes are discarded and a proposal round resets the block state) instead of after a restart
 	InProcess bool `json:"in_process,omitempty"`
+	// Pooled (faults while proposing): a valid relayer transaction sits in the node's mempool, so that what the SDK
+	// falls back to when the proposal builder fails is not empty
+	Pooled bool `json:"pooled,omitempty"`
 }
 
 // ChildSpec pushes an invalid child straight into FinalizeBlock.
@@ -236,6 +240,16 @@ func runEngineCase(c EngineCase) Outcome {
 				method := "fcu"
 				if f.Site == "prepare-get" {
 					method = "getPayload"
+				}
+				if f.Pooled {
+					if rv, err := node.RelayerView(); err == nil {
+						rp := world.NewAccount(world.DomRelayer, 0)
+						if raw, err := node.Tx(rp, 0, world.TxOpts{}, &bitcointypes.MsgApproveCancellation{Proposer: rv.Proposer, Id: []uint64{940_000 + uint64(i)}}); err == nil {
+							if resp, err := node.CheckTx(raw, false); err == nil && resp.Code == 0 {
+								o.Classes = append(o.Classes, "pooled-tx")
+							}
+						}
+					}
 				}
 				node.Eng.SetPlan(plan)
 				node.Eng.ArmFaults([]world.Fault{{Method: method, Nth: 0, Kind: kind}})
@@ -463,6 +477,9 @@ func TestC09_SingleFaults(t *testing.T) {
 			for _, k := range siteKinds(site, thorough) {
 				for _, blk := range []int{2, 3} { // both proposers
 					all = append(all, EngineCase{Base: base, Blocks: 6, Faults: []FaultSpec{{Block: blk, Site: site, Kind: int(k)}}})
+					if site == "prepare-fcu" || site == "prepare-get" {
+						all = append(all, EngineCase{Base: base, Blocks: 6, Faults: []FaultSpec{{Block: blk, Site: site, Kind: int(k), Pooled: true}}})
+					}
 					if (site == "end-newpayload" || site == "end-fcu") && (k == world.FaultRPCError || k == world.FaultInvalid) {
 						all = append(all, EngineCase{Base: base, Blocks: 6, Faults: []FaultSpec{{Block: blk, Site: site, Kind: int(k), InProcess: true}}})
 					}
@@ -491,7 +508,7 @@ func TestC09_SingleFaults(t *testing.T) {
 	}
 	RunEnum(t, Prop[EngineCase]{
 		ID: "C09", Name: "enumeration", Run: runEngineCase,
-		Rule: "complete enumeration, on 3 base histories (empty blocks; refunds+claims; unlocks+user transactions) with alternating proposers: every single (site, kind) with site in {forkchoiceUpdated and getPayload while proposing, newPayload while checking, newPayload and forkchoiceUpdated in EndBlock} and kind in {RPC error, INVALID, SYNCING, ACCEPTED, missing payload id (+ stall beyond the deadline in the thorough tier)}, at blocks proposed by either validator; every invalid child kind (wrong parent, number +-1, fee recipient != author, blob gas, stale beacon root, nil payload, other author) pushed straight into FinalizeBlock; thorough adds all ordered pairs of faults; oracles: a fault-free twin chain (byte-identical results after the fault clears), restart after a failed FinalizeBlock shows height/app hash/head unchanged (for EndBlock faults also the variant in which the same process executes the block again), head model, recorded beacon root = hash of the last head-advancing consensus block and carried by the next head, engine call log ending with newPayload(head), forkchoice(head, parent, parent)",
+		Rule: "complete enumeration, on 3 base histories (empty blocks; refunds+claims; unlocks+user transactions) with alternating proposers: every single (site, kind) with site in {forkchoiceUpdated and getPayload while proposing, newPayload while checking, newPayload and forkchoiceUpdated in EndBlock} and kind in {RPC error, INVALID, SYNCING, ACCEPTED, missing payload id (+ stall beyond the deadline in the thorough tier)}, at blocks proposed by either validator; every invalid child kind (wrong parent, number +-1, fee recipient != author, blob gas, stale beacon root, nil payload, other author) pushed straight into FinalizeBlock; thorough adds all ordered pairs of faults; faults while proposing also with a valid relayer transaction in the mempool (what the SDK falls back to must not be acceptable either); oracles: a fault-free twin chain (byte-identical results after the fault clears), restart after a failed FinalizeBlock shows height/app hash/head unchanged (for EndBlock faults also the variant in which the same process executes the block again), head model, recorded beacon root = hash of the last head-advancing consensus block and carried by the next head, engine call log ending with newPayload(head), forkchoice(head, parent, parent)",
 	}, func(yield func(EngineCase) bool) {
 		for _, c := range all {
 			if !yield(c) {
@@ -520,6 +537,7 @@ func TestC09_RandomPlans(t *testing.T) {
 			}
 			for i := range c.Faults {
 				c.Faults[i].InProcess = rapid.Bool().Draw(t, "inProcess")
+				c.Faults[i].Pooled = rapid.Bool().Draw(t, "pooled")
 			}
 			return c
 		},
